@@ -458,7 +458,7 @@ class Alg:
             return True
         if isinstance(stmt, ast.Assign) and len(stmt.targets) == 1:
             t = stmt.targets[0]
-            if isinstance(t, (ast.Name, ast.Attribute)) and isinstance(stmt.value, (ast.Call, ast.Name, ast.Attribute)):
+            if isinstance(t, (ast.Name, ast.Attribute)) and isinstance(stmt.value, (ast.Call, ast.Name, ast.Attribute, ast.BinOp)):
                 pv = None
                 if not (isinstance(stmt.value, ast.Call) and not (isinstance(stmt.value.func, ast.Name) and stmt.value.func.id == "Point")):
                     pv = self.point_value(stmt.value)
@@ -534,6 +534,21 @@ class Alg:
         if isinstance(node, ast.Tuple) and len(node.elts) == 2:
             try:
                 return [self.ev(e) for e in node.elts]
+            except Uninterpreted:
+                return None
+        if isinstance(node, ast.BinOp) and isinstance(node.op, (ast.Add, ast.Sub, ast.Mult, ast.Div)):
+            # point arithmetic: p + q, p - q, k * p, p * k, p / k
+            l = self.point_value(node.left)
+            r = self.point_value(node.right)
+            try:
+                if l is not None and r is not None and isinstance(node.op, (ast.Add, ast.Sub)):
+                    return [a + b for a, b in zip(l, r)] if isinstance(node.op, ast.Add) else [a - b for a, b in zip(l, r)]
+                if l is not None and r is None and isinstance(node.op, (ast.Mult, ast.Div)):
+                    k = self.ev(node.right)
+                    return [a * k for a in l] if isinstance(node.op, ast.Mult) else [a / k for a in l]
+                if r is not None and l is None and isinstance(node.op, ast.Mult):
+                    k = self.ev(node.left)
+                    return [k * a for a in r]
             except Uninterpreted:
                 return None
         return None
